@@ -72,7 +72,17 @@ class Hub:
             abort_if_hopeless()
 
     def register_truth(self, ev, mods, imps) -> None:
-        self.truth[id(ev)] = (ev, frozenset(mods), frozenset(imps))
+        """The registry must not keep the architecture alive: in a real process architectures die and their addresses
+        are re-used, and state a library keyed by id() only shows then.  A weak reference with a finalizer that drops the
+        entry (so that the registry itself never serves a stale entry to a new object at the same address)."""
+        import weakref
+
+        key = id(ev)
+        try:
+            ref = weakref.ref(ev, lambda _r, k=key, t=self.truth: t.pop(k, None) if (t.get(k) or (None,))[0] is _r else None)
+        except TypeError:
+            ref = (lambda e=ev: e)  # not weakly referenceable: keep it (as before)
+        self.truth[key] = (ref, frozenset(mods), frozenset(imps))
 
 
 HUB = Hub()
@@ -562,7 +572,7 @@ def _c03_key(cfg, extra_pos, miss_pos, neg, exp_neg, mods, imps) -> str:
 
 def _truth_for(evaluable, state):
     reg = HUB.truth.get(id(evaluable))
-    if reg is not None and reg[0] is evaluable:
+    if reg is not None and reg[0]() is evaluable:
         return reg[1], reg[2]
     if state is None:
         return None
